@@ -45,7 +45,7 @@ def main():
         shutil.copy(demo, tgt)
         run = re.search(r"func (Test\w+)", open(demo).read()).group(1)
         allt = "|".join(sorted(set(re.findall(r"func (Test\w+)\(", open(demo).read()))))
-        cmd = f"go test -vet=off -count=1 -timeout 300s -run '^({allt})$' ./{demodir}"
+        cmd = f"go test {os.environ.get('SEED_GOFLAGS', '')} -vet=off -count=1 -timeout 300s -run '^({allt})$' ./{demodir}"
         rc_with, o_with = sh(cmd, wt)
         meta["ran"].append(cmd + " [with the change] -> " + ("FAIL" if rc_with else "ok"))
         sh("git checkout -- . ", wt)
